@@ -450,7 +450,7 @@ def _general(k, m1, m2, a, q):
         impl = [int(t.state_count), e if e < k else k] + _listf(t.partial(ch, True))
     except Exception as ex:
         impl = raised(ex)
-    return impl, [k, o_enc] + indicator(o_set, states), ch in ('R', 'Y') and len(o_set) < k
+    return impl, [k, o_enc] + indicator(o_set, states), ch in ('R', 'Y')
 
 
 def _gdom(k, m1, m2, a, q):
